@@ -12,7 +12,36 @@ open Spec.C04
 def compOf : String → Option (Int → Int → Bool)
   | "lt" => some (fun a b => decide (a < b))
   | "gt" => some (fun a b => decide (a > b))
+  -- strict comparators with ties (strict weak orders): keys in one class of ten are ONE key
+  | "klt" => some (fun a b => decide (a.tdiv 10 < b.tdiv 10))
+  | "kgt" => some (fun a b => decide (a.tdiv 10 > b.tdiv 10))
   | _ => none
+
+/-- With a comparator that has ties the map's keys are the equivalence classes: the specification is run
+on the canonical representative of a key (which member of the class the tree keeps is not fixed by the
+property), with the plain order on representatives. -/
+def canonOf : String → (Int → Int)
+  | "klt" | "kgt" => fun k => k.tdiv 10
+  | _ => id
+
+def specCompOf : String → Option (Int → Int → Bool)
+  | "klt" => compOf "lt"
+  | "kgt" => compOf "gt"
+  | c => compOf c
+
+def canonOp (c : Int → Int) : Op Int Int → Op Int Int
+  | .upsert k v => .upsert (c k) v
+  | .get k => .get (c k)
+  | .delete k => .delete (c k)
+  | op => op
+
+/-- canonicalise the keys of a `traverse` answer -/
+def canonRes (c : Int → Int) (op : Op Int Int) (res : List Val) : List Val :=
+  match op, res with
+  | .traverse, [.list ps] => [.list (ps.map fun p => match p with
+      | .list [.int k, v] => .list [.int (c k), v]
+      | x => x)]
+  | _, r => r
 
 def parseOp (l : Line) : Option (Op Int Int) :=
   match l.op, l.args with
@@ -39,6 +68,9 @@ def renderModel : Option (Out Int Int) → List Val
 
 structure St where
   comp : Int → Int → Bool
+  /-- comparator on canonical keys, used by the specification -/
+  scomp : Int → Int → Bool
+  canon : Int → Int := id
   model : Model.Bst.St Int Int := {}
   spec : List (Int × Int) := []
   patched : Patched.St Int Int := { m := [] }
@@ -48,18 +80,22 @@ structure St where
 def kind : Kind where
   σ := St
   init := fun ps => match ps with
-    | [.atom c] => (compOf c).map fun f => { comp := f }
+    | [.atom c] => match compOf c, specCompOf c with
+      | some f, some g => some { comp := f, scomp := g, canon := canonOf c }
+      | _, _ => none
     | _ => none
   step := fun st l =>
     match parseOp l with
     | none => { st := st, bad := some s!"bad bst op {l.op}" }
     | some op =>
-      let (s', so) := Spec.C04.step st.comp st.spec op
-      let (p', po) := Patched.step st.comp st.patched op
+      let cop := canonOp st.canon op
+      let cres := canonRes st.canon op l.res
+      let (s', so) := Spec.C04.step st.scomp st.spec cop
+      let (p', po) := Patched.step st.scomp st.patched cop
       -- non-triviality: a delete of a key that has both a smaller and a larger neighbour present
       let two := match op with
-        | .delete k => (Spec.OrdMap.lookup st.comp k st.spec).isSome &&
-            st.spec.any (fun e => st.comp e.1 k) && st.spec.any (fun e => st.comp k e.1)
+        | .delete k => (Spec.OrdMap.lookup st.scomp (st.canon k) st.spec).isSome &&
+            st.spec.any (fun e => st.scomp e.1 (st.canon k)) && st.spec.any (fun e => st.scomp (st.canon k) e.1)
         | _ => false
       -- the model of the code, run beside the monitor; its answer is compared with the implementation's
       let mr := Model.Bst.step st.comp st.model op
@@ -76,11 +112,11 @@ def kind : Kind where
                                 maxSize := max st.maxSize s'.length }
       let nt := st'.twoChildDelete && st'.maxSize ≥ 3
       let model := some (renderModel mo)
-      if renderOut so == l.res then { st := st', model, tags := mtags, nontrivial := nt }
+      if renderOut so == cres then { st := st', model, tags := mtags, nontrivial := nt }
       else match failRes l.res with
         | some c => { st := st', model, tags := mtags, spec := some s!"{c}:{l.op}" }
         | none =>
-          if renderOut po == l.res then
+          if renderOut po == cres then
             { st := st', model, tags := mtags, known := some "bstree.delete-absent-decrements-size" }
           else { st := st', model, tags := mtags, spec := some s!"ordered-map:{l.op}" }
 
